@@ -39,6 +39,7 @@ const (
 	tMap // children: k0 v0 k1 v1 ...
 	tNode
 	tEdge
+	tUnresolved // a reference whose marker is not in the decoded part: only an empty (nil/zero) placeholder may stand for it
 )
 
 type tnode struct {
@@ -53,10 +54,22 @@ type tnode struct {
 	mt       string
 	ct       uint64
 	children []*tnode
+	alt      *tnode // tUnresolved: the node the reference may alternatively have been resolved to
 }
 
-func (n *tnode) String() string {
+func (n *tnode) String() string { return n.str(0) }
+
+// str prints to a bounded depth (trees built from markers and references may be cyclic).
+func (n *tnode) str(depth int) string {
+	if depth > 6 {
+		return "…"
+	}
 	switch n.kind {
+	case tUnresolved:
+		if n.alt != nil {
+			return "<unresolved or " + n.alt.str(depth+1) + ">"
+		}
+		return "<unresolved>"
 	case tNull:
 		return "null"
 	case tBool:
@@ -79,7 +92,7 @@ func (n *tnode) String() string {
 				sb.WriteString("…")
 				break
 			}
-			sb.WriteString(c.String())
+			sb.WriteString(c.str(depth + 1))
 		}
 		sb.WriteString("]")
 		return sb.String()
@@ -587,6 +600,18 @@ func isNumericElem(k reflect.Kind) bool {
 
 // match returns "" when tree node n describes exactly the Go value v.
 func (m *matcher) match(n *tnode, v reflect.Value, path string) string {
+	if n.kind == tUnresolved {
+		for v.IsValid() && (v.Kind() == reflect.Interface || v.Kind() == reflect.Ptr) && !v.IsNil() {
+			v = v.Elem()
+		}
+		if !v.IsValid() || v.IsZero() {
+			return ""
+		}
+		if n.alt != nil {
+			return m.match(n.alt, v, path)
+		}
+		return fmt.Sprintf("%s: the reference was never resolved, yet the result holds %v there", path, v)
+	}
 	if !v.IsValid() {
 		if n.kind == tNull {
 			return ""
@@ -660,6 +685,20 @@ func (m *matcher) match(n *tnode, v reflect.Value, path string) string {
 			}
 		}
 		return ""
+	}
+	if k := t.Kind(); (k == reflect.Slice || k == reflect.Map) && v.Len() > 0 && (n.kind == tList || n.kind == tMap) {
+		// cycles through slices and maps held in interface{} (a marked container referenced from inside itself)
+		key := [2]uintptr{v.Pointer(), uintptr(reflect.ValueOf(n).Pointer())}
+		if k == reflect.Slice {
+			key[0] ^= uintptr(v.Len()) << 48
+		}
+		if m.visited[key] {
+			return ""
+		}
+		if m.visited == nil {
+			m.visited = map[[2]uintptr]bool{}
+		}
+		m.visited[key] = true
 	}
 	switch t.Kind() {
 	case reflect.Interface:
